@@ -140,6 +140,32 @@ class DefaultFormulaParser(FormulaParser):
             tokens, "0", [token_minus, token_one], kind=Token.Kind.VALUE
         )
 
+        def find_rhs_index(tokens: list[Token]) -> int:
+            """
+            Find the top-level index of the tilde operator starting the
+            right hand side of the formula (or -1 if not found).
+            """
+            from .algos.tokens_to_ast import CONTEXT_CLOSERS, CONTEXT_OPENERS
+
+            context = []
+            for index, token in enumerate(tokens):
+                if token.kind is Token.Kind.CONTEXT:
+                    if token.token in CONTEXT_OPENERS:
+                        context.append(token.token)
+                        continue
+                    else:
+                        if (
+                            not context
+                            or context[-1] != CONTEXT_CLOSERS[token.token]
+                        ):
+                            return -1  # pragma: no cover ; should not happen
+                        context.pop()
+                if context:
+                    continue
+                if token.kind is Token.Kind.OPERATOR and "~" in token.token:
+                    return index
+            return -1
+
         # Insert intercepts
         if self.include_intercept:
             tokens = list(
@@ -152,32 +178,6 @@ class DefaultFormulaParser(FormulaParser):
                     no_join_for_operators={"+", "-"},
                 )
             )
-
-            def find_rhs_index(tokens: list[Token]) -> int:
-                """
-                Find the top-level index of the tilde operator starting the
-                right hand side of the formula (or -1 if not found).
-                """
-                from .algos.tokens_to_ast import CONTEXT_CLOSERS, CONTEXT_OPENERS
-
-                context = []
-                for index, token in enumerate(tokens):
-                    if token.kind is Token.Kind.CONTEXT:
-                        if token.token in CONTEXT_OPENERS:
-                            context.append(token.token)
-                            continue
-                        else:
-                            if (
-                                not context
-                                or context[-1] != CONTEXT_CLOSERS[token.token]
-                            ):
-                                return -1  # pragma: no cover ; should not happen
-                            context.pop()
-                    if context:
-                        continue
-                    if token.kind is Token.Kind.OPERATOR and token.token == "~":  # noqa: S105
-                        return index
-                return -1
 
             rhs_index = find_rhs_index(tokens) + 1
             tokens = [
@@ -195,12 +195,15 @@ class DefaultFormulaParser(FormulaParser):
                     no_join_for_operators={"+", "-"},
                 ),
             ]
+        else:
+            tokens = list(tokens)
+            rhs_index = find_rhs_index(tokens) + 1
 
-            context["__formulaic_variables_used_lhs__"] = [
-                variable
-                for token in tokens[:rhs_index]
-                for variable in token.required_variables
-            ]
+        context["__formulaic_variables_used_lhs__"] = [
+            variable
+            for token in tokens[:rhs_index]
+            for variable in token.required_variables
+        ]
 
         # Collapse inserted "+" and "-" operators to prevent unary issues.
         tokens = merge_operator_tokens(tokens, symbols={"+", "-"})
